@@ -5,8 +5,10 @@ package svc
 
 import (
 	"context"
+	"encoding/json"
 	"errors"
 	"fmt"
+	"reflect"
 	"strings"
 	"sync"
 	"sync/atomic"
@@ -210,6 +212,28 @@ func (s *Svc) Big(ctx context.Context, tok string, n int) (string, error) {
 	defer s.exit(ctx, r)
 	wait(ctx, g)
 	return Reply(tok) + ":" + strings.Repeat("x", n), nil
+}
+
+// Handle is decoded by a custom parameter decoder (HandleDecoder), which rejects what it does not like
+// the way the repository's own test decoder does: with an invalid reflect.Value and an error.
+type Handle struct{ N int }
+
+func HandleDecoder(ctx context.Context, b []byte) (reflect.Value, error) {
+	var n int
+	if err := json.Unmarshal(b, &n); err != nil {
+		return reflect.Value{}, fmt.Errorf("bad handle: %w", err)
+	}
+	if n < 0 {
+		return reflect.Value{}, errors.New("unknown handle")
+	}
+	return reflect.ValueOf(Handle{n}), nil
+}
+
+func (s *Svc) UseHandle(ctx context.Context, tok string, h Handle) (string, error) {
+	r, g := s.enter(ctx, "UseHandle", tok)
+	defer s.exit(ctx, r)
+	wait(ctx, g)
+	return fmt.Sprintf("%s:h%d", Reply(tok), h.N), nil
 }
 
 func (s *Svc) Fail(ctx context.Context, tok string) (string, error) {
@@ -522,7 +546,7 @@ type RevAPI struct {
 	// the same notification through a proxy field without a context parameter
 	NotePingNC func(tok string) error `notify:"true" rpc_method:"R.NotePing"`
 	RSub       func(ctx context.Context, tok string) (<-chan int, error)
-	RBig func(ctx context.Context, tok string, n int) (string, error)
+	RBig       func(ctx context.Context, tok string, n int) (string, error)
 	// retry-tagged reverse methods
 	IdentR func(ctx context.Context, tok string) (string, error) `retry:"true" rpc_method:"R.Ident"`
 	RHoldR func(ctx context.Context, tok string) (string, error) `retry:"true" rpc_method:"R.RHold"`
